@@ -65,8 +65,11 @@ package httpserver
 //@   ensures wh == old(wh) + 1 && lastStatus == statusCode
 //@ extern invoke:(net/http.ResponseWriter).Write
 //@ extern (*bytes.Buffer).Write
+//@ ghost headerCopies int
 //@ func (*ResponseBuffer).CopyHeader
 //@   requires rb != nil
+//@   modifies ghost:headerCopies
+//@   ensures headerCopies == old(headerCopies) + 1
 //@ func (forcedStatusCodeWriter).WriteHeader
 //@   requires fscw.rb != nil && fscw.ResponseWriter != nil
 //@   modifies ghost:wh, ghost:lastStatus
@@ -77,14 +80,18 @@ package httpserver
 //@   ensures result == !rb.stream
 //@ func (*ResponseBuffer).WriteHeader
 //@   requires rb != nil && rb.ResponseWriterWrapper != nil && rb.ResponseWriterWrapper.ResponseWriter != nil && rb.shouldBuffer != nil
-//@   modifies ghost:wh, ghost:lastStatus, ResponseBuffer.wroteHeader, ResponseBuffer.status, ResponseBuffer.stream
+//@   modifies ghost:headerCopies, ghost:wh, ghost:lastStatus, ResponseBuffer.wroteHeader, ResponseBuffer.status, ResponseBuffer.stream
 //@   ensures [only_first_call_counts] old(rb.wroteHeader) ==> (wh == old(wh) && rb.status == old(rb.status) && rb.stream == old(rb.stream))
 //@   ensures [records_status] !old(rb.wroteHeader) ==> (rb.wroteHeader && rb.status == status)
 //@   ensures [streams_with_same_status] (!old(rb.wroteHeader) && rb.stream) ==> (wh == old(wh) + 1 && lastStatus == status)
 //@   ensures [buffering_commits_nothing] (!old(rb.wroteHeader) && !rb.stream) ==> wh == old(wh)
+//@   // while a response is only buffered nothing of it reaches the client's header map: whoever answers instead (an error
+//@   // page, the server's own 500) starts from clean headers
+//@   ensures [buffering_leaves_client_headers_alone] (old(rb.wroteHeader) || !rb.stream) ==> headerCopies == old(headerCopies)
+//@   ensures [streaming_hands_headers_over_once] (!old(rb.wroteHeader) && rb.stream) ==> headerCopies == old(headerCopies) + 1
 //@ func (*ResponseBuffer).Write
 //@   requires rb != nil && rb.ResponseWriterWrapper != nil && rb.ResponseWriterWrapper.ResponseWriter != nil && rb.shouldBuffer != nil && rb.Buffer != nil
-//@   modifies ghost:wh, ghost:lastStatus, ResponseBuffer.wroteHeader, ResponseBuffer.status, ResponseBuffer.stream
+//@   modifies ghost:headerCopies, ghost:wh, ghost:lastStatus, ResponseBuffer.wroteHeader, ResponseBuffer.status, ResponseBuffer.stream
 //@   ensures [header_decided] rb.wroteHeader
 //@   ensures [commit_at_most_once] wh <= old(wh) + 1 && (old(rb.wroteHeader) ==> wh == old(wh))
 //@   ensures [implicit_200] !old(rb.wroteHeader) ==> rb.status == 200
@@ -107,7 +114,7 @@ package httpserver
 //@ extern (*sync.Pool).Put
 //@ func (*ResponseBuffer).ReadFrom
 //@   requires rb != nil && rb.ResponseWriterWrapper != nil && rb.ResponseWriterWrapper.ResponseWriter != nil && rb.shouldBuffer != nil && rb.Buffer != nil
-//@   modifies ghost:wh, ghost:lastStatus, ghost:bufferedCopies, ghost:directCopies, ResponseBuffer.wroteHeader, ResponseBuffer.status, ResponseBuffer.stream
+//@   modifies ghost:headerCopies, ghost:wh, ghost:lastStatus, ghost:bufferedCopies, ghost:directCopies, ResponseBuffer.wroteHeader, ResponseBuffer.status, ResponseBuffer.stream
 //@   ensures [header_decided] rb.wroteHeader
 //@   ensures [streaming_body_goes_to_the_client] rb.stream ==> (directCopies == old(directCopies) + 1 && bufferedCopies == old(bufferedCopies))
 //@   ensures [buffered_body_goes_to_the_buffer] !rb.stream ==> (bufferedCopies == old(bufferedCopies) + 1 && directCopies == old(directCopies))
